@@ -614,4 +614,16 @@ theorem Un.handshake_history' (ops : List (Op K E)) (ks : List K) (hnd : ks.Nodu
     (hk : ∀ k ∈ opKeys ops, k ∈ ks) :
     (ks.map fun k => (unAdj (Un.run ops) k).length).sum = 2 * (ks.map fun k => ((Un.run ops).get k).out.length).sum :=
   Un.handshake' _ (Un.run_mirror ops) ks hnd (fun k _ p hp => hk _ (Un.run_keysIn ops k p hp))
+
+/-- whatever the first `try_connect` did, a second one for the same pair is refused and changes nothing -/
+theorem Di.tryConnect_twice' (s : Store K E) (u v : K) (e e' : E) :
+    Di.tryConnect (Di.tryConnect s u v e).1 u v e' = ((Di.tryConnect s u v e).1, .exists_) := by
+  rw [Di.tryConnect_spec' s u v e]
+  by_cases h : vals (s.get u).out v ≠ []
+  · rw [if_pos h, Di.tryConnect_spec', if_pos h]
+  · rw [if_neg h, Di.tryConnect_spec']
+    have hc := (connect_spec' s u v e u).1
+    have : vals ((connect s u v e).get u).out v ≠ [] := by
+      rw [hc]; simp [vals]
+    rw [if_pos this]
 end G
